@@ -79,6 +79,8 @@ fn main() {
             "C06" => print_replay(&id, props::c06::replay(&name, &path)),
             "C07" => print_replay(&id, props::c07::replay(&name, &path)),
             "C08" => print_replay(&id, props::c08::replay(&name, &path)),
+            "C09" => print_replay(&id, props::c09::replay(&name, &path)),
+            "C10" => print_replay(&id, props::c10::replay(&name, &path)),
             "C11" => print_replay(&id, props::c11::replay(&name, &path)),
             "C12" => print_replay(&id, props::c12::replay(&name, &path)),
             "C13" => print_replay(&id, props::c13::replay(&name, &path)),
@@ -96,6 +98,8 @@ fn main() {
             "C06" => props::c06::check(&tier),
             "C07" => props::c07::check(&tier),
             "C08" => props::c08::check(&tier),
+            "C09" => props::c09::check(&tier),
+            "C10" => props::c10::check(&tier),
             "C11" => props::c11::check(&tier),
             "C12" => props::c12::check(&tier),
             "C13" => props::c13::check(&tier),
